@@ -562,9 +562,11 @@ def node_term(e, pool, rename=None):
     if t == "tuple":
         return "(NTuple 0%%Z %s)" % cattrs(e["members"], pool, rename)
     if t == "binop":
+        ln, rn = left_name(e, rename), right_name(e, rename)
+        if ln == rn and not _same_object(e):
+            ln, rn = "left_", "right_"      # CompoundPrior.__init__: different operands never share one attribute name
         return "(NBinop 0%%Z %s %s %s %s %s)" % (
-            cstr(BINOPS[e["op"]]), cstr(left_name(e, rename)), cstr(right_name(e, rename)),
-            node_term(e["l"], pool, rename), node_term(e["r"], pool, rename))
+            cstr(BINOPS[e["op"]]), cstr(ln), cstr(rn), node_term(e["l"], pool, rename), node_term(e["r"], pool, rename))
     if t == "unop":
         return "(NUnop 0%%Z %s %s %s)" % (cstr(UNOPS[e["op"]]), cstr(unop_name(e, rename)), node_term(e["a"], pool, rename))
     if t == "model":
